@@ -10,7 +10,14 @@ assignment / setObs / addAnalyticalFeature / unary, binary, scalar void operator
 arithmetic raises mid-way included) / value-returning aggregates / `computeAbsCurv`, `estimate_speed`,
 `segmentation` / `operate(str)` on an arbitrary RPN token list over `= + - * / ^ % < > & $ @`. All statements
 are for every scalar type `V`, every feature name (any string) and every interpretation `o : Ops V` of the
-arithmetic, exceptions included (the driver runs them at `Float`). -/
+arithmetic, exceptions included (the driver runs them at `Float`).
+
+Continued in `Props/C01World.lean` (the same API on a heap of `Obs` objects: tracks that share or copy their
+observations — `extract`, slices, `+`, `copy`, `extractSpanTime`, `loop(add=True)`, `addObs(o.copy())`) and in
+`Props/C01Call.lean` (the list forms of `Track.operate`; `call_keeps_listed`: a call that is not a deleting call unlists
+nothing, returning or raising) and in `Props/C01Front.lean` (the argument handling of `createAnalyticalFeature` and
+`track[name] = obs`: whatever object is given — `None`, a bool, a str … — is the value read back; the driver runs the
+model at `V := String`, one token per Python object, next to the `Float` instance). -/
 set_option linter.unusedSectionVars false
 namespace TV.C01
 open TV.Features
@@ -410,7 +417,8 @@ theorem shiftCircular_fn_read_back (o : Ops V) (inp : String) (arg : V) (out : S
   obtain ⟨hr, hl⟩ := shiftCircular_result o inp arg out _ _ _ (ainv_abs h) href
   exact read_of_lookup o _ hi _ _ hr hl
 
-/-- T6e: the same for SCALAR_DIVIDER, SCALAR_REV_DIVIDER (two operators in a row, the first of which may raise mid-way),
+/-- T6e: the same for SCALAR_DIVIDER, SCALAR_REV_DIVIDER (single divisions in the create / loop / addListToAF form since
+fixes 5676890 / 2dd86ce, which may raise mid-way on a zero),
 SHIFT_CIRCULAR, SHIFT_CIRCULAR_REV and the twelve plain scalar operators (`scalarKind`): when the call returns `temp`,
 the output feature reads `temp`. -/
 theorem scalarKind_read_back (o : Ops V) (k : SKind) (inp : String) (arg : V) (out : String) (st : St V)
@@ -418,19 +426,8 @@ theorem scalarKind_read_back (o : Ops V) (k : SKind) (inp : String) (arg : V) (o
     Features.read o (scalarKind o k inp arg out st).2 out = .ok temp := by
   cases k with
   | plain s => exact scalarVoid_fn_read_back o s inp arg out st h temp hres
-  | divider =>
-    unfold scalarKind scalarDivider at hres ⊢
-    by_cases hz : o.eqZero arg = true
-    · simp [hz, M.throw] at hres
-    · simp only [hz, Bool.false_eq_true, if_false] at hres ⊢
-      exact scalarVoid_fn_read_back o _ inp _ out st h temp hres
-  | revDivider =>
-    have e : scalarKind o .revDivider inp arg out st
-        = ((applyVoid o (inverse o) inp out >>= fun _ => scalarVoid o .multiplier out arg out) st) := rfl
-    rw [e] at hres ⊢
-    obtain ⟨y, _, h2⟩ := bind_fst_ok hres
-    rw [h2] at hres ⊢
-    exact scalarVoid_fn_read_back o _ out arg out _ (sim_applyVoid (n := n) o (inverse o) inp out st h).1 temp hres
+  | divider => exact applyVoid_read_back o (divCell o arg) inp out st h temp hres
+  | revDivider => exact applyVoid_read_back o (revDivCell o arg) inp out st h temp hres
   | shift => exact shiftCircular_fn_read_back o inp arg out st h temp hres
   | shiftRev => exact shiftCircular_fn_read_back o inp _ out st h temp hres
 
@@ -511,17 +508,17 @@ example : ((trace iops [.expr ["x", "2", "3", "*", "="], .expr ["t", "3", "="]] 
     (fun r => (r.1.toOption.isSome, r.2.xs, r.2.ts))) =
     [(true, [6, 6, 6], [1000, 1001, 1002]), (false, [6, 6, 6], [1000, 1001, 1002])] := by decide +kernel
 
-/-- an operator that raises mid-way: `c = 2/a` with a zero in `a`. INVERSER has already created its output `#0` when
-`1.0 / 0` raises at the second observation; the call raises, the temporary is purged, `c` is not created, `a` and
+/-- an operator that raises mid-way: `c = 2/a` with a zero in `a`. SCALAR_REV_DIVIDER has already created its output `#0` when
+`2 / 0` raises at the second observation; the call raises, the temporary is purged, `c` is not created, `a` and
 the coordinates are as before, every observation carries one value -/
 example : ((trace iops [.create "a" (.list [1, 0, 3]), .expr ["c", "2", "a", "/", "="]] t0).map
     (fun r => (r.1.toOption.isSome, r.2.dico, r.2.rows, r.2.xs))) =
     [(true, [("a", 0)], [[1], [0], [3]], [10, 11, 12]), (false, [("a", 0)], [[1], [0], [3]], [10, 11, 12])] := by decide +kernel
-/-- the same expression when no value is zero: `c` reads `(1 / a) * 2` as SCALAR_REV_DIVIDER computes it (integer
-division here), no temporary is left -/
+/-- the same expression when no value is zero: `c` reads `2 / a` as SCALAR_REV_DIVIDER computes it since fix 5676890 (integer
+division here; it used to be `(1 / a) * 2`), no temporary is left -/
 example : ((runOps iops [.create "a" (.list [1, 2, 3]), .expr ["c", "2", "a", "/", "="]] t0).dico,
     (runOps iops [.create "a" (.list [1, 2, 3]), .expr ["c", "2", "a", "/", "="]] t0).rows) =
-    ([("a", 0), ("c", 1)], [[1, (1 / 1) * 2], [2, (1 / 2) * 2], [3, (1 / 3) * 2]]) := by decide +kernel
+    ([("a", 0), ("c", 1)], [[1, 2 / 1], [2, 2 / 2], [3, 2 / 3]]) := by decide +kernel
 /-- operators `% ^ <`, a shift and a function call in one expression: `c = ABS{a} % 3 + (a ^ 2) + (a < 2) + (a >> 2)` -/
 example : (runOps iops [.create "a" (.list [1, 2, 3]),
     .expr ["c", "ABS", "a", "@", "3", "%", "a", "2", "^", "+", "a", "2", "<", "+", "a", "2", "&", "+", "="]] t0).rows =
